@@ -355,7 +355,7 @@ func specIndexOK(l []JsonNode, i int, path Path, before, remove, add, after []Js
 // only what the hunk says changes.
 func specStrictRes(n JsonNode, path Path, remove, add []JsonNode, ret JsonNode) bool {
 	if len(path) == 0 {
-		return same(ret, specSingle(add))
+		return specSameModKind(ret, specSingle(add))
 	}
 	switch pe := path[0].(type) {
 	case PathKey:
@@ -373,20 +373,40 @@ func specStrictRes(n JsonNode, path Path, remove, add []JsonNode, ret JsonNode) 
 		if !specIsListy(n) || !specIsListy(ret) {
 			return false
 		}
-		l := specElems(n)
-		r := specElems(ret)
-		i := int(pe)
-		if len(path) == 1 {
-			if i == -1 {
-				return specSplice(r, l, add, len(l), 0)
-			}
-			return specSplice(r, l, add, i, len(remove))
-		}
-		return len(r) == len(l) && 0 <= i && i < len(l) &&
-			specStrictRes(l[i], path[1:], remove, add, r[i]) &&
-			forallInt(0, len(l), func(q int) bool { return q == i || same(r[q], l[q]) })
+		return specIndexRes(specElems(n), specElems(ret), int(pe), path, remove, add)
 	}
 	return false
+}
+
+// specSameModKind: the same value, up to how an array is tagged (plain, list, set, multiset): the
+// tag is not part of the document, only of how one operation reads it.
+func specSameModKind(x, y JsonNode) bool {
+	if same(x, y) {
+		return true
+	}
+	switch x.(type) {
+	case jsonArray, jsonList, jsonSet, jsonMultiset:
+		switch y.(type) {
+		case jsonArray, jsonList, jsonSet, jsonMultiset:
+			a, b := specElems(x), specElems(y)
+			return len(a) == len(b) && forallInt(0, len(a), func(i int) bool { return same(a[i], b[i]) })
+		}
+	}
+	return false
+}
+
+// specIndexRes: r is what the hunk leaves of the elements l at index i (path[0] is that index).
+// Like specIndexOK it speaks about elements only, whatever kind of array holds them.
+func specIndexRes(l, r []JsonNode, i int, path Path, remove, add []JsonNode) bool {
+	if len(path) == 1 {
+		if i == -1 {
+			return specSplice(r, l, add, len(l), 0)
+		}
+		return specSplice(r, l, add, i, len(remove))
+	}
+	return len(r) == len(l) && 0 <= i && i < len(l) &&
+		specStrictRes(l[i], path[1:], remove, add, r[i]) &&
+		forallInt(0, len(l), func(q int) bool { return q == i || same(r[q], l[q]) })
 }
 
 // specRemoveInv: state of the remove loop of jsonList.patch after k = len(rm0)-len(rm)
